@@ -17,6 +17,7 @@ Record contracts (O : oracles) : Prop := mkC {
   cH_homog : homog (Hmix O);
   cS_homog : homog (Smix O);
   cH_zero : zero_at_zero (Hmix O);
+  cH_case : forall p v T P, Hmix O (swapcase p) v T P == Hmix O p v T P;   (* 'L' / 'S' use the models of 'l' / 's' *)
   cH_spec : solve_spec (Hmix O) (solveH O);
   cS_spec : solve_spec (Smix O) (solveS O)
 }.
@@ -338,9 +339,9 @@ Qed.
 Definition wfs (s : stream) : Prop :=
   (if multi s then (2 <= length (pm s))%nat else length (pm s) = 1%nat) /\ NoDup (phases s).
 
-Lemma has_phase_In s p : has_phase s p = true -> In p (phases s).
+Lemma has_phase_In s p : mem p (phases s) = true -> In p (phases s).
 Proof.
-  unfold has_phase. intros H. apply existsb_exists in H. destruct H as (x & I & E).
+  unfold mem. intros H. apply existsb_exists in H. destruct H as (x & I & E).
   apply Nat.eqb_eq in E. now subst.
 Qed.
 
@@ -371,7 +372,7 @@ Proof.
     + destruct (multi o) eqn:Mo.
       * destruct (list_eqb Nat.eqb (phases self) (phases o)); [|discriminate].
         injection H as <-. split; reflexivity.
-      * destruct (has_phase self (phase1 o)) eqn:HP; [|discriminate].
+      * destruct (mem (target_phase (phases self) (phase1 o)) (phases self)) eqn:HP; [|discriminate].
         injection H as <-. split; [|reflexivity].
         destruct Wo as [Lo _]. rewrite Mo in Lo.
         destruct (pm o) as [|pv [|? ?]] eqn:Po; simpl in Lo; try discriminate.
@@ -382,10 +383,12 @@ Proof.
         -- rewrite pm_total_single_row, qsum_indicator; auto.
            rewrite Po, R1. simpl. lra.
         -- rewrite (xsum_single_row0 _ _ _ _ _ _ (cH_zero _ C)), qsum_indicator; auto.
-           rewrite Po, P1, R1. simpl. lra.
+           rewrite Po, R1. simpl. rewrite P1. unfold target_phase.
+           destruct (mem (fst pv) (phases self)); [lra|]. rewrite (cH_case _ C). lra.
   - destruct (multi o) eqn:Mo.
     + destruct Wo as [Lo _]. rewrite Mo in Lo.
       destruct (pm o) as [|pv [|pv2 t]] eqn:Po; simpl in Lo; try lia.
+      destruct (mem _ _); [|discriminate].
       injection H as <-. unfold getH, prop_flow, total. cbn [pm sT sP]. rewrite Po. split; reflexivity.
     + destruct same.
       * injection H as <-. rewrite (Same eq_refl). split; reflexivity.
@@ -395,7 +398,7 @@ Qed.
 Lemma imol_mix_TP self ins s2 : imol_mix self ins = Ok s2 -> sT s2 = sT self /\ sP s2 = sP self.
 Proof.
   unfold imol_mix. destruct (multi self).
-  - destruct (forallb (has_phase self) (phases_of ins)); [|discriminate]. intros H; injection H as <-. auto.
+  - destruct (forallb _ (phases_of ins)); [|discriminate]. intros H; injection H as <-. auto.
   - intros H; injection H as <-. auto.
 Qed.
 
@@ -454,12 +457,12 @@ Proof.
   { rewrite sget_upd_same' in E1 by exact Lr. now injection E1 as <-. }
   destruct (imol_mix_TP _ _ _ E3) as [_ P2]. rewrite G1 in P2. simpl in P2.
   destruct (setH O self2 (sum_H O ins (heat_of others Q0))) as [sa [ea|]] eqn:SH.
-  - dres H. rename a into chars. dres H. rename a into s4. dres H. rename a into ins4. dres H. rename a into s5.
+  - dres H. rename a into chars. dres H. rename a into s4. dres H. rename a into s5.
     destruct (setH O s5 (sum_H O ins (heat_of others Q0))) as [sb [eb|]] eqn:SH2; [discriminate|].
     injection H as <-.
     exists ins, P, s5, sb. split; [reflexivity|]. split; [exact E0|]. split; [exact SH2|].
     split.
-    { destruct (imol_mix_TP _ _ _ E7) as [_ P5]. rewrite P5, (set_phases_P _ _ _ E5), (setH_P _ _ _ _ _ SH). exact P2. }
+    { destruct (imol_mix_TP _ _ _ E6) as [_ P5]. rewrite P5, (set_phases_P _ _ _ E5), (setH_P _ _ _ _ _ SH). exact P2. }
     assert (L4 : length (upd (upd (upd (upd st r (set_P self P)) r self2) r sa) r s4) = length st)
       by (rewrite !upd_length; reflexivity).
     split; [|split].
@@ -779,6 +782,7 @@ Proof.
   - intros p v k T P Hk. unfold lin_H. rewrite <- (vdot_vdivs cn v k Hk). lra.
   - intros p v k T P Hk. lra.
   - intros p n T P. unfold lin_H. rewrite vdot_vzero. lra.
+  - intros p v T P. reflexivity.
   - intros m x Tg P T' S. apply lin_solve_value in S. destruct S as [Z ET].
     rewrite xsum_lin, ET. field. exact Z.
   - intros m x Tg P T' S. discriminate.
